@@ -197,6 +197,10 @@ def split_model(line):
 def doc_constraint_windows(program):
     """[(kind, factor name, level name, k-or-index, windows)] from the documentation reading."""
     ds = docsem.doc_sem(program)
+    if getattr(ds, "unsat", False):
+        # require_complete_crossing with impossible combinations: no valid sequence, the
+        # library refuses at synthesis; the documentation defines no windows for it
+        raise docsem.Unsupported("complete crossing unsatisfiable")
     fm = {f["id"]: f for f in program["factors"]}
     out = []
     for c0, scope in ds.block.constraints:
